@@ -135,8 +135,11 @@ func genConc() {
 			})
 			if len(fd.Body.List) > 0 {
 				if es, ok := fd.Body.List[0].(*ast.ExprStmt); ok {
-					if exprString(es.X) == "mu.Lock(...)" {
+					if x := exprString(es.X); x == "mu.Lock(...)" {
 						locked = append(locked, fname)
+					} else if strings.HasSuffix(x, ".Lock(...)") {
+						// another package-level mutex: "function: mutex"
+						locked = append(locked, fname+": "+strings.TrimSuffix(x, ".Lock(...)"))
 					}
 				}
 			}
